@@ -206,7 +206,7 @@ def _set(x, path, v):
     x[path[-1]] = v
 
 
-PROTECTED = set(['family', 'profile', 'transport', 'op', 't', 'seed', 'api', 'kind'])
+PROTECTED = set(['family', 'profile', 'transport', 'op', 't', 'seed', 'api', 'kind', 'entry', 'peer_kind', 'enc', 'errors'])
 
 
 def shrink(scn, fails, budget_s=60, max_tries=3000):
@@ -280,10 +280,10 @@ def shrink(scn, fails, budget_s=60, max_tries=3000):
             cands = []
             if t == 'str' and len(v) > 0:
                 cands = [v[:len(v) // 2], v[len(v) // 2:], v[1:], v[:-1]]
-            elif t == 'int' and v not in (0, 1):
-                cands = [0, 1, v // 2]
-            elif t == 'float' and v not in (0.0, 1.0):
-                cands = [0.0, 1.0, round(v / 2, 6)]
+            elif t == 'int' and v > 0:
+                cands = [c for c in (0, 1, v // 2, v - 1) if 0 <= c < v]
+            elif t == 'float' and v > 0:
+                cands = [c for c in (0.0, 1.0, round(v / 2, 6)) if 0 <= c < v]
             for c in cands:
                 if c == v:
                     continue
@@ -430,7 +430,15 @@ def run_check(spec, tier, seed, workers=None, runs=None, budget_s=None, out=sys.
             continue
         new_viols.append((key, first))
     replays = []
-    for key, first in new_viols[:6]:
+    # report distinct clauses first; cap the number of minimisations
+    seen_cl = set()
+    ordered = []
+    for key, first in new_viols:
+        if first['viol']['clause'] not in seen_cl:
+            seen_cl.add(first['viol']['clause'])
+            ordered.append((key, first))
+    ordered += [x for x in new_viols if x not in ordered]
+    for key, first in ordered[:8]:
         scn, viol = first['scn'], first['viol']
 
         def fails(c, _v=viol):
